@@ -610,3 +610,56 @@ Proof.
     + destruct (from_csv_string s) as [t|ec|pc] eqn:Ef; simpl in He; try discriminate. exfalso.
       destruct (from_csv_never_panics s pc) as (H1 & _). contradiction.
 Qed.
+
+(* ---------- the debug assertions never decide anything: debug and release builds agree ---------- *)
+Lemma bdd_determined a b : wf_bdd a -> wf_bdd b -> b_inputs a = b_inputs b -> (forall v, bsem a v = bsem b v) -> a = b.
+Proof.
+  intros Wa Wb Hi Hs. pose proof Wa as (Sa & Na & Oa & Ra & Ba). pose proof Wb as (Sb & Nb & Ob & Rb & Bb).
+  destruct a as [ia na ra], b as [ib nb rb]. simpl in *. subst ib. f_equal; [congruence|].
+  apply (canonical _ _ 0); auto. intros p.
+  pose proof (eval_env_of_inner {| b_inputs := ia; b_nv := na; b_root := ra |} p Wa) as E1.
+  pose proof (eval_env_of_inner {| b_inputs := ia; b_nv := nb; b_root := rb |} p Wb) as E2.
+  simpl in E1, E2. rewrite <- E1, <- E2. apply Hs.
+Qed.
+
+Theorem restrict_profile_independent b rho : wf_bdd b -> b_restrict true b rho = b_restrict false b rho.
+Proof.
+  intros W. destruct (b_restrict_spec true b rho W) as (r1 & H1 & W1 & I1 & S1).
+  destruct (b_restrict_spec false b rho W) as (r2 & H2 & W2 & I2 & S2). rewrite H1, H2. f_equal.
+  apply bdd_determined; auto; [congruence|]. intros v. rewrite S1, S2. reflexivity.
+Qed.
+
+Theorem quantifiers_profile_independent b vars : wf_bdd b ->
+  b_exists true b vars = b_exists false b vars /\ b_forall true b vars = b_forall false b vars /\
+  b_derivative true b vars = b_derivative false b vars.
+Proof.
+  intros W. split; [|split].
+  - destruct (b_exists_spec true b vars W) as (r1 & H1 & W1 & I1 & S1). destruct (b_exists_spec false b vars W) as (r2 & H2 & W2 & I2 & S2).
+    rewrite H1, H2. f_equal. apply bdd_determined; auto; [congruence|]. intros v. rewrite S1, S2. reflexivity.
+  - destruct (b_forall_spec true b vars W) as (r1 & H1 & W1 & I1 & S1). destruct (b_forall_spec false b vars W) as (r2 & H2 & W2 & I2 & S2).
+    rewrite H1, H2. f_equal. apply bdd_determined; auto; [congruence|]. intros v. rewrite S1, S2. reflexivity.
+  - destruct (b_derivative_spec true b vars W) as (r1 & H1 & W1 & I1 & S1). destruct (b_derivative_spec false b vars W) as (r2 & H2 & W2 & I2 & S2).
+    rewrite H1, H2. f_equal. apply bdd_determined; auto; [congruence|]. intros v. rewrite S1, S2. reflexivity.
+Qed.
+
+Theorem bit_profile_independent op a b : wf_bdd a -> wf_bdd b ->
+  b_bit true (dd_apply op) a b = b_bit false (dd_apply op) a b.
+Proof.
+  intros Wa Wb. destruct (b_bit_spec true op a b Wa Wb) as (r1 & H1 & W1 & I1 & S1).
+  destruct (b_bit_spec false op a b Wa Wb) as (r2 & H2 & W2 & I2 & S2). rewrite H1, H2. f_equal.
+  apply bdd_determined; auto; [congruence|]. intros v. rewrite S1, S2. reflexivity.
+Qed.
+
+Theorem substitute_profile_independent b m : wf_bdd b -> (forall k g, In (k, g) m -> wf_bdd g) ->
+  b_substitute true b m = b_substitute false b m.
+Proof.
+  intros W Wm. destruct (existsb (fun kv => mem (fst kv) (b_inputs (snd kv))) m) eqn:Ex.
+  - apply existsb_exists in Ex. destruct Ex as ([k g] & Hin & Hk). simpl in Hk. apply mem_In in Hk.
+    rewrite !b_substitute_refuses by eauto. reflexivity.
+  - assert (Hself : forall k g, In (k, g) m -> ~ In k (b_inputs g)).
+    { intros k g Hin Hk. assert (existsb (fun kv => mem (fst kv) (b_inputs (snd kv))) m = true); [|congruence].
+      apply existsb_exists. exists (k, g). split; auto. simpl. apply mem_In. exact Hk. }
+    destruct (b_substitute_spec true b m W Wm Hself) as (r1 & H1 & W1 & I1 & S1).
+    destruct (b_substitute_spec false b m W Wm Hself) as (r2 & H2 & W2 & I2 & S2). rewrite H1, H2. f_equal.
+    apply bdd_determined; auto; [congruence|]. intros v. rewrite S1, S2. reflexivity.
+Qed.
